@@ -20,6 +20,14 @@ RULE = ("@given baked programs as C09; queries over every object used by some st
         "distinct by (object kind, unit family, step-kind set, stage count)")
 ASSUMPTIONS = ["size_u: L = all volumes, g = all masses, mol = non-enzyme moles, U = enzyme activity",
                "dilute(new_name=...) not generated (see C09)", "an object untouched in the timeframe is not queried"]
+def shard_config(shard, tier):
+    """two of eight shards run under other documented settings: storage units (mmol, mL), and default densities
+    2.5 / 0.4 with display units that differ from the storage units"""
+    return {5: {'moles_storage_unit': 'mmol', 'volume_storage_unit': 'mL'},
+            6: {'default_solid_density': 2.5, 'default_enzyme_density': 0.4, 'moles_display_unit': 'nmol',
+                'volume_display_unit': 'mL'}}.get(shard % 8)
+
+
 REQUIRED_CLASSES = {'quick': ['obj:c', 'obj:p', 'q:flows', 'q:remaining'],
                     'thorough': ['obj:c', 'obj:p', 'q:flows', 'q:remaining', 'timeframe:stage']}
 
